@@ -133,8 +133,10 @@ def check(reg, tier):
     buildsys.dll_name_contract(reg, PROP)
     buildsys.parse_dtype_contract(reg, PROP)
     buildsys.make_dll_dtype_contract(reg, PROP)
+    buildsys.load_dll_types_contract(reg, PROP)
+    buildsys.load_dll_dtype_contract(reg, PROP)
     c15_regex.run(reg)
     token_differential(reg, tier)
     build_agreement(reg, tier)
-    reg.assume("DllModel._load_dll's ctypes argument types and the numpy buffers of the requested dtype are not under "
+    reg.assume("the numpy buffers of the requested dtype handed to the kernel (PyInput, result arrays) are not under "
                "contract (only exercised by the bounded build/agreement runs)")
